@@ -10,6 +10,9 @@ blocks handed out, completed and in progress, in that order,
 * have offsets chained by size when the input offsets are chained (`C16_offsets`);
 * are maximal when no `finish` cut one short (`C16_maximal`);
 and `finish` called directly after `take` never panics (`C16_no_panic`).
+`C16_fed` ties the `fed` field to the schedule's own events, `C16_schedule_independent`
+states the independence from the schedule directly, and `C16_bytes_partition` composes
+the separator with the streaming disassembler at the level of bytes.
 "Halting" is the specification's notion: `C16_flags_cancun` ties the table flags
 used by the separator to `Spec.ofFork`.
 -/
